@@ -276,7 +276,8 @@ def run_obligation(ob_id, opts):
         if status == 'cut':
             res['cut_paths'] += 1
         if path.unknown_branches:
-            res['undecided'].append("path %d: %d branch feasibility queries returned unknown" % (
+            # sound: an unknown feasibility answer keeps the branch (more paths, never fewer)
+            res.setdefault('notes', []).append("path %d: %d branch feasibility queries returned unknown (branch kept)" % (
                 res['paths'], path.unknown_branches))
         occ = {}
         path_ok = status in ('done', 'cut')
@@ -393,8 +394,24 @@ def run_obligation(ob_id, opts):
                     res['crashes'].append("cross-check: native run of a feasible path failed: %s; values=%r" % (
                         err2, vals))
                 elif bad and not hit2:
-                    res['crashes'].append("cross-check: proved clause fails natively: %r values=%r choices=%r" % (
-                        bad, vals, path.choices))
+                    # the real code fails the contract on a concrete input: a violation whatever the symbolic verdict was
+                    # (typically the clause was proved under a loop annotation whose own VC is not discharged)
+                    for lab, d in bad:
+                        res['refuted'].append(dict(clause=lab, values=_json_safe(vals), choices=_json_safe(path.choices),
+                                                   model='', detail=_json_safe(d), native_results=_json_safe(r2[:20]),
+                                                   native_trace=_json_safe(t2[:40]), replay_error=None, trace=[],
+                                                   confirmed=True, note='found by the CPython cross-check of a path'))
+    # refutation search (DESIGN 1): when something is left undecided and nothing is refuted, run the obligation body
+    # natively once with default inputs -- bodies whose replay mode enumerates small inputs thereby search for a
+    # failing concrete input; a failure found this way is a replayed refutation, nothing found leaves it undecided.
+    if (res['undecided'] or res['crashes']) and not any(v.get('confirmed') for v in res['refuted']) and ob.replay:
+        r2, t2, err2, hit2 = replay_concrete(ob, {}, [])
+        for lab, ok, d in r2:
+            if not ok:
+                res['refuted'].append(dict(clause=lab, values={}, choices=[], model='', detail=_json_safe(d),
+                                           native_results=_json_safe(r2[:20]), native_trace=[], replay_error=err2,
+                                           trace=[], confirmed=True,
+                                           note='found by the native refutation search (default/enumerated inputs)'))
     res['functions'] = {k: v.as_dict() for k, v in funcs.items()}
     res['stats'] = stats
     res['wall_s'] = time.time() - t_start
